@@ -207,18 +207,21 @@ def fancyCheck (shape : List Nat) (idxs : List (List Int)) : Except Err Nat :=
     | [] => .error .index   -- `idxs[0]` of an empty tuple (0-d array, key `()`)
     | l :: _ => if idxs.any (fun m => m.length ≠ l.length) then .error .index else .ok l.length
 
+/-- the values `_fancy_setitem` pairs with `n` listed keys: a 0-d value is repeated (`np.full`), a 1-d
+value must have exactly `n` entries, anything else is a ValueError -/
+def fancyVals (v : Val α) (n : Nat) : Except Err (List α) :=
+  match v.shape with
+  | [] => (match v.flat with | x :: _ => .ok (List.replicate n x) | [] => .error .internal)
+  | [m] => if m = n then .ok v.flat else .error .value
+  | _ => .error .value
+
 def setFancy [DecidableEq α] (d : DOK α) (idxs : List (List Int)) (v : Val α) : DOK α × Option Err :=
   match fancyCheck d.shape idxs with
   | .error e => (d, some e)
   | .ok n =>
     if n = 0 then (d, some .index)   -- "Indices must be sequences of integer types!"
     else
-      let vals : Except Err (List α) :=
-        match v.shape with
-        | [] => (match v.flat with | x :: _ => .ok (List.replicate n x) | [] => .error .internal)
-        | [m] => if m = n then .ok v.flat else .error .value
-        | _ => .error .value
-      match vals with
+      match fancyVals v n with
       | .error e => (d, some e)
       | .ok xs => ({ d with entries := storeAll d.fill d.entries ((zipKeys idxs n).zip xs) }, none)
 
